@@ -279,6 +279,7 @@ type Feat struct {
 	Subdirs, Symlink, NoExt, Pkgs, TypelessRoot, OddKeys                   bool
 	RecCombo                                                               bool // allow reference cycles through allOf/anyOf
 	Shadow                                                                 bool // two files named common.json in two directories
+	UntypedRecRoot                                                         bool // a document whose root has properties but no "type" and refers to itself as a whole file
 	WebDoc                                                                 bool // one schema is served over (simulated) HTTP and referenced by URL, twice
 	WeirdName                                                              bool // a file whose name contains %41 / ? next to a decoy named as the decoded form
 	ExtShadow                                                              bool // e0f.json and e0f.yaml side by side, referenced without extension
@@ -382,6 +383,7 @@ func genWorld(t *rapid.T, maxFiles int, recCombo, http, shadows bool) *World {
 		feat.ExtShadow = rapid.IntRange(0, 99).Draw(t, "f:extshadow") < 30
 		feat.WeirdName = rapid.IntRange(0, 99).Draw(t, "f:weirdname") < 25
 		feat.WebDoc = rapid.IntRange(0, 99).Draw(t, "f:webdoc") < 20
+		feat.UntypedRecRoot = rapid.IntRange(0, 99).Draw(t, "f:untypedrecroot") < 20
 		if feat.Shadow {
 			feat.Subdirs = true
 		}
@@ -447,7 +449,10 @@ func genWorld(t *rapid.T, maxFiles int, recCombo, http, shadows bool) *World {
 		}
 		if len(elig) >= 2 {
 			for _, f := range elig {
-				f.Defs = append(f.Defs, "Shared")
+				// SharedA / SharedB / Shared: the same three names in every eligible file; Shared
+				// holds "sharedany": anyOf over refs to the two helpers, so that every package
+				// emits the same alias declarations (type SharedSharedany_0 = SharedA)
+				f.Defs = append(f.Defs, "SharedA", "SharedB", "Shared")
 			}
 		}
 	}
@@ -468,6 +473,14 @@ func genWorld(t *rapid.T, maxFiles int, recCombo, http, shadows bool) *World {
 			w.Files = append(w.Files, sf)
 		}
 	}
+	if feat.UntypedRecRoot {
+		uy := rapid.IntRange(0, 2).Draw(t, "untypedyaml") == 0
+		uf := &SFile{Tag: "u0", Base: "u0f.json", RootObj: true, YAML: uy}
+		if uy {
+			uf.Base = "u0f.yaml"
+		}
+		w.Files = append(w.Files, uf)
+	}
 	if feat.WebDoc {
 		yaml := rapid.IntRange(0, 3).Draw(t, "webyaml") == 0
 		hf := &SFile{Tag: "h0", Base: "webf.json", RootObj: true, ID: "https://example.com/h0", Defs: []string{"H0Da"}, URL: "http://example.com/s/webf.json"}
@@ -475,6 +488,12 @@ func genWorld(t *rapid.T, maxFiles int, recCombo, http, shadows bool) *World {
 			hf.YAML, hf.Base, hf.URL = true, "webf.yaml", "http://example.com/s/webf.yaml"
 		}
 		w.Files = append(w.Files, hf)
+		if rapid.Bool().Draw(t, "webquery") {
+			// a second document at the same path, told apart by the query string only
+			hf.URL += "?version=1"
+			h1 := &SFile{Tag: "h1", Base: hf.Base, YAML: hf.YAML, RootObj: true, ID: "https://example.com/h1", Defs: []string{"H1Da"}, URL: strings.TrimSuffix(hf.URL, "1") + "2"}
+			w.Files = append(w.Files, h1)
+		}
 	}
 	if feat.WeirdName {
 		// a reference is a literal file name: "w0%41f.json" is not "w0Af.json", "w1?f.json"
@@ -656,6 +675,22 @@ func (g *genCtx) newProp() string {
 
 func (g *genCtx) genDoc() {
 	f := g.f
+	if f.Tag == "u0" {
+		// root without "type": the tool treats a whole-file $ref to it as an object; it refers
+		// to itself (array of self, optional self, map of self) by its own file name
+		self := Obj{{"$ref", f.Base}}
+		props := Obj{{"mk_u0", Obj{{"type", "string"}}}, {"u0val", Obj{{"type", "integer"}}}}
+		switch rapid.IntRange(0, 2).Draw(g.t, "u0shape") {
+		case 0:
+			props = append(props, KV{"u0kids", Obj{{"type", "array"}, {"items", self}}})
+		case 1:
+			props = append(props, KV{"u0next", self})
+		default:
+			props = append(props, KV{"u0kids", Obj{{"type", "array"}, {"items", self}}}, KV{"u0next", self})
+		}
+		f.Doc = Obj{{"$schema", "http://json-schema.org/draft-07/schema#"}, {"title", "Title u0"}, {"properties", props}}
+		return
+	}
 	doc := Obj{}
 	if !f.RootObj || g.pct("schemakw", 40) {
 		doc = append(doc, KV{"$schema", "http://json-schema.org/draft-07/schema#"})
@@ -917,6 +952,13 @@ func (g *genCtx) genMarkerObject(marker, fromDef string) Obj {
 		props = append(props, KV{ru.Prop, g.comboSchema(ru.Combo, ru.Ref)})
 		g.f.Refs = append(g.f.Refs, ru)
 	}
+	if fromDef == "Shared" && g.feat.AnyOf {
+		cb := func(n string) any {
+			return Obj{{"type", "object"}, {"properties", Obj{{"cb_" + g.f.Tag + "_" + n, Obj{{"type", "string"}}}}}}
+		}
+		props = append(props, KV{"sharedany", Obj{{"anyOf", []any{Obj{{"$ref", "#/$defs/SharedA"}}, Obj{{"$ref", "#/$defs/SharedB"}}, cb("sa")}}}})
+		props = append(props, KV{"sharedlist", Obj{{"type", "array"}, {"items", Obj{{"anyOf", []any{Obj{{"$ref", "#/$defs/SharedB"}}, cb("sl"), Obj{{"$ref", "#/$defs/SharedA"}}}}}}}})
+	}
 	if fromDef == "" {
 		props = g.forcedRefs(props)
 	}
@@ -1112,7 +1154,7 @@ func (g *genCtx) mayRequire(v any) bool {
 
 // isSpecial: shadow / extension-shadow files (referenced only by forced refs).
 func isSpecial(f *SFile) bool {
-	return strings.HasPrefix(f.Tag, "s") || strings.HasPrefix(f.Tag, "e") || strings.HasPrefix(f.Tag, "w") || strings.HasPrefix(f.Tag, "h")
+	return strings.HasPrefix(f.Tag, "s") || strings.HasPrefix(f.Tag, "e") || strings.HasPrefix(f.Tag, "w") || strings.HasPrefix(f.Tag, "h") || strings.HasPrefix(f.Tag, "u")
 }
 
 // forcedRefs adds the discriminating references to the root struct of file f.
@@ -1148,12 +1190,23 @@ func (g *genCtx) forcedRefs(props Obj) Obj {
 			}
 		}
 	}
+	if g.feat.UntypedRecRoot && f == g.w.Files[0] {
+		if uf := g.w.File("u0"); uf != nil {
+			if rel, err := filepath.Rel("/"+f.Dir, "/"+uf.Base); err == nil {
+				add(rel, "u0", "", "untypedroot")
+			}
+		}
+	}
 	if g.feat.WebDoc && f == g.w.Files[0] {
 		if hf := g.w.File("h0"); hf != nil {
 			add(hf.URL, "h0", "", "http")
 			add(hf.URL+"#/$defs/H0Da", "h0", "H0Da", "http")
 			if g.pct("httpagain", 50) {
 				add(hf.URL, "h0", "", "http")
+			}
+			if h1 := g.w.File("h1"); h1 != nil {
+				add(h1.URL, "h1", "", "http")
+				add(h1.URL+"#/$defs/H1Da", "h1", "H1Da", "http")
 			}
 		}
 	}
